@@ -142,6 +142,14 @@ Next == \/ StartTimer \/ SearchPoll \/ SearchEnds \/ CancelTry \/ CancelWait \/ 
 
 Spec == Init /\ [][Next]_tvars
 
+(* Liveness (checked only under this fair specification, never under a state constraint): with weak fairness *)
+(* of the main thread's steps and of each timer thread's steps after its wait ended, every solve() returns:    *)
+(* in particular cancel() never waits for ever for a timer thread that is gone                                 *)
+MainStep == StartTimer \/ SearchPoll \/ SearchEnds \/ CancelTry \/ CancelWait \/ Invalidate \/ ReadFlag
+ThreadStep(i) == Woken(i) \/ Callback(i) \/ Finish(i)
+FairSpec == Spec /\ WF_tvars(MainStep) /\ \A i \in Q : WF_tvars(ThreadStep(i))
+EveryQueryReports == <>(mpc = "done")
+
 (* ---------------- C23 ---------------- *)
 (* a timeout is only reported when the query's own limit was exceeded           *)
 NoFalseTimeout == \A i \in Q : reported[i] = "timeout" => ownExpired[i]
